@@ -215,7 +215,17 @@ pub fn run(ctx: Ctx) -> ! {
                         *outcomes.lock().unwrap().entry(format!("{stack}:{class}")).or_default() += 1;
                         let mut d = distinct.lock().unwrap();
                         if d.len() < 200_000 {
-                            d.insert(format!("{stack}:{reply:?}:{}", c.len() * 10 + s.len()));
+                            // the order in which a refusal lists the responder's versions is not
+                            // part of the outcome (it follows a HashMap)
+                            let shape = match &reply {
+                                Reply::VersionMismatch(l) => {
+                                    let mut l = l.clone();
+                                    l.sort();
+                                    Reply::VersionMismatch(l)
+                                }
+                                o => o.clone(),
+                            };
+                            d.insert(format!("{stack}:{shape:?}:{}", c.len() * 10 + s.len()));
                         }
                     }
                     Err((fp, what)) => ctx.violation(format!("C25:{stack}:{fp}"), format!("{what}; reply {reply:?}"), case()),
